@@ -52,7 +52,7 @@ Clip(t, s) == IF s < 0 THEN 0 ELSE IF s > t.P - 1 THEN t.P - 1 ELSE s
 DefaultPayload == [eps |-> -1, dseq |-> -1, h |-> 0]
 
 (* probe data layer - same formulas as RexLaw / harness/probes.py *)
-PayloadHash(nid, e) == (nid * 7 + (e.eps + 1) * 13 + (e.dseq + 1) * 17 + e.h) % MOD
+PayloadHash(nid, e) == (nid * 7 + (e.eps + 1) * 13 + (e.dseq + 1) * 17 + e.h + 3 * (e.h % 97) + 5 * (e.dseq + 1)) % MOD   \* incl. the payload's two-element leaf [h mod 97, seq + 1]
 EntryTerm(nid, e) == (PayloadHash(nid, e) + Max2(e.seq, -1) + 1) % MOD
 NextH(t, k, seq, h, wins) ==
   LET terms(a) == (SumSeq([i \in 1..Len(wins[a]) |-> EntryTerm(t.kinds[a].nid, wins[a][i])])) % MOD
